@@ -187,6 +187,61 @@ def classify(diags, regions, src_name):
     return fails, und
 
 
+
+def enclosing_fn_name(lines, line):
+    """name of the function whose text contains `line` (1-based) in the assembled file"""
+    for i in range(min(line, len(lines)) - 1, -1, -1):
+        m = re.match(r"\s*(?:pub(?:\([a-z]+\))?\s+)?(?:(?:open|closed|uninterp|broadcast|proof|exec|spec|axiom|const|unsafe)\s+)*fn\s+(\w+)", lines[i])
+        if m:
+            return m.group(1)
+    return None
+
+
+def confirm_failures(unit, src, wdir, tier, regions, src_name, fails):
+    with open(src) as f:
+        lines = f.readlines()
+    groups = {}
+    for f_ in fails:
+        key = f_["region"] or "(none)"
+        groups.setdefault(key, []).append(f_)
+    if len(groups) > 8:
+        return fails, []          # wholesale breakage: not a flake, and not worth 16 more solver runs
+    def pattern(regname, fl):
+        reg = next((r for r in regions if r["name"] == regname), None)
+        if reg and reg["kind"] == "fn":
+            q = regname.split("@")[-1]
+            return q
+        nm = enclosing_fn_name(lines, fl[0]["line"] or 1)
+        return ("*" + nm) if nm else None
+    def rerun(regname, fl, k):
+        pat = pattern(regname, fl)
+        if not pat:
+            return True
+        sd = None if k == 0 else 7919 * k + 13
+        vs = run_verus("%s_cf%d_%s" % (unit, k, re.sub(r"\W", "_", regname))[:80], src, wdir, tier, sd, RLIMIT, ["--verify-root", "--verify-function", pat], False)
+        if vs["json"] is None:
+            return True
+        vres = vs["json"].get("verification-results", {})
+        if vres.get("encountered-vir-error"):
+            return True
+        f2, u2 = classify(vs["diags"], regions, src_name)
+        if any((x["region"] or "(none)") == regname for x in f2):
+            return True                      # fails again
+        if u2 or vres.get("encountered-error") or vres.get("errors", 1) != 0:
+            return True                      # rlimit / front-end trouble in the re-run: keep the original verdict
+        return vres.get("verified", 0) == 0  # nothing was verified (pattern matched nothing): keep
+    keep, unstable = [], []
+    with cf.ThreadPoolExecutor(max_workers=8) as ex:
+        futs = {(rn, k): ex.submit(rerun, rn, fl, k) for rn, fl in groups.items() for k in (0, 1)}
+        for rn, fl in groups.items():
+            again = [futs[(rn, k)].result() for k in (0, 1)]
+            if all(again):
+                keep += fl
+            else:
+                unstable.append({"region": rn, "message": fl[0]["message"], "at": fl[0].get("at"),
+                                 "note": "failed in the whole-unit run but VERIFIED when run on its own (seed runs: %s); not reported" % again})
+    return keep, unstable
+
 def do_unit(unit, ucfg, repo, wdir, tier, prop):
     t0 = time.time()
     R = {"unit": unit, "status": "ok", "undecided": [], "fails": [], "functions": [], "lemmas": [], "trusted": [], "wall_s": 0}
@@ -225,6 +280,12 @@ def do_unit(unit, ucfg, repo, wdir, tier, prop):
         if c["name"] not in hit and c.get("mode") != "assume":
             und.append({"message": "vacuity canary %s was PROVED: hypotheses/axioms are contradictory" % c["name"]})
     R["canaries"] = {"expected_to_fail": [c["name"] for c in canaries], "failed_as_expected": sorted(hit)}
+    # confirmation re-runs.  A failed obligation is reported only if the function fails AGAIN when verified on its own
+    # (fresh solver process, `--verify-function`) under the default seed and under one more seed.  Any successful run is a
+    # complete proof of the same verification condition, so dropping a failure that does not reproduce is sound; it removes
+    # the flakiness of borderline queries whose outcome depends on what the shared solver process did before them.
+    if fails:
+        fails, R["unstable"] = confirm_failures(unit, src, wdir, tier, regions, src_name, fails)
     R["fails"] = fails
     R["undecided"] = und
     R["verified_items"] = vres.get("verified", 0)
@@ -295,7 +356,10 @@ def do_unit(unit, ucfg, repo, wdir, tier, prop):
         missing = [p for p in probes if p["line"] not in hit]
         R["vacuity"] = {"probes": len(probes), "reachable": len(probes) - len(missing),
                         "missing": [p["what"] for p in missing], "wall_s": vv["wall_s"]}
-        if missing:
+        front_end_trouble = any(not str(x.get("message", "")).startswith(("vacuity", "function body check", "while loop", "for loop", "loop")) for x in R["undecided"])
+        if missing and front_end_trouble:
+            R["vacuity"]["note"] = "not evaluated: the unit did not get through the front end, so the probes were never checked"
+        elif missing:
             # a probe that does not fail means a contradictory precondition / invariant (or an unreachable loop)
             R["undecided"].append({"message": "vacuity: assert(false) was PROVED at: " + "; ".join(p["what"] for p in missing)})
     if R["undecided"]:
@@ -486,7 +550,7 @@ def main():
             "rewrite_rules_fired": {r["unit"]: r.get("rules_fired", {}) for r in results},
             "vacuity": {r["unit"]: r.get("vacuity") for r in results},
             "vacuity_canaries": {r["unit"]: r.get("canaries") for r in results},
-            "units": [{"unit": r["unit"], "status": r["status"], "verified_items": r.get("verified_items"), "wall_s": r["wall_s"], "smt_ms": r.get("smt_ms"), "extra_z3_seeds": r.get("seed_runs")} for r in results],
+            "units": [{"unit": r["unit"], "status": r["status"], "verified_items": r.get("verified_items"), "wall_s": r["wall_s"], "smt_ms": r.get("smt_ms"), "extra_z3_seeds": r.get("seed_runs"), "unstable_not_reported": r.get("unstable") or []} for r in results],
             "slow_functions_over_5s": [f["name"] for f in fns if f.get("smt_ms", 0) and f["smt_ms"] > 5000],
             "smt_ms_property_functions": smt_ms,
             "kani": kani_res,
